@@ -66,6 +66,11 @@ func textUnits(tid int, ascii bool) []uint16 {
 		if ascii {
 			s = "s2x"
 		}
+	case 6:
+		s = "Büro ©"
+		if ascii {
+			s = "Buro c"
+		}
 	case 5:
 		var u []uint16
 		pat := utf16.Encode([]rune("Prism ICC – ж 漢字 😀 "))
@@ -138,12 +143,12 @@ func seededProfiles(n int, seed int64) [][]byte {
 		gaps := []int{rng.Intn(4), rng.Intn(4), rng.Intn(4), rng.Intn(4)}
 		var d aDesc
 		if rng.Intn(4) == 0 {
-			d = aDesc{Kind: "v2", Tid: 1 + rng.Intn(5), Recs: []aRec{}, Place: "table", RecSize: 12}
+			d = aDesc{Kind: "v2", Tid: 1 + rng.Intn(6), Recs: []aRec{}, Place: "table", RecSize: 12}
 		} else {
 			nr := 1 + rng.Intn(40)
 			d = aDesc{Kind: "mluc", Place: places[rng.Intn(len(places))], RecSize: 12 + 4*rng.Intn(3)}
 			for r := 0; r < nr; r++ {
-				tid := 1 + rng.Intn(5)
+				tid := 1 + rng.Intn(6)
 				if tid == 5 && rng.Intn(3) != 0 {
 					tid = 1 + rng.Intn(4)
 				}
@@ -153,7 +158,7 @@ func seededProfiles(n int, seed int64) [][]byte {
 		p := aProfile{Tags: tags, NBlocks: nb, Order: order, Gaps: gaps, Desc: d}
 		// candidate identities, used only to NAME what was observed (TLC judges)
 		var cands [][2]int
-		tl := []int{0, 5, 0, 3, 3, 2000}
+		tl := []int{0, 5, 0, 3, 3, 2000, 6}
 		if d.Kind == "v2" {
 			cands = append(cands, [2]int{d.Tid, tl[d.Tid]})
 		} else {
@@ -222,7 +227,7 @@ func projectDesc(p aProfile, allowed [][2]int, s string, derr error) [2]int {
 	}
 	ascii := p.Desc.Kind == "v2"
 	match := func(c [2]int) bool {
-		if c[0] < 1 || c[0] > 5 {
+		if c[0] < 1 || c[0] > 6 {
 			return false
 		}
 		u := textUnits(c[0], ascii)
@@ -236,7 +241,7 @@ func projectDesc(p aProfile, allowed [][2]int, s string, derr error) [2]int {
 			return c
 		}
 	}
-	for tid := 1; tid <= 5; tid++ {
+	for tid := 1; tid <= 6; tid++ {
 		u := textUnits(tid, ascii)
 		if match([2]int{tid, len(u)}) {
 			return [2]int{tid, len(u)}
